@@ -6,5 +6,6 @@ import (
 	_ "verifharness/internal/props/c04"
 	_ "verifharness/internal/props/c05"
 	_ "verifharness/internal/props/c06"
+	_ "verifharness/internal/props/c15"
 	_ "verifharness/internal/props/c16"
 )
